@@ -257,7 +257,7 @@ class _HalfRankUnwarper:
     candidates = self._warped_labels[
         max(0, idx - 1) : min(len(self._warped_labels), idx + 1)
     ]
-    best_idx = np.argmin(np.abs(candidates - label))
+    best_idx = max(0, idx - 1) + np.argmin(np.abs(candidates - label))
     if np.isclose(self._warped_labels[best_idx], label):
       return self._original_labels[best_idx]
 
